@@ -497,6 +497,7 @@ type FuncContract struct {
 	Uses      []string // lemmas assumed at entry (proved separately)
 	PostUses  []string // lemmas assumed at every return
 	CallSites []*CallSiteSpec
+	EntrySets []*CallSiteSpec // "at entry set g = E": ghost assignments at function entry
 	Raw       []string
 }
 
@@ -533,6 +534,7 @@ func (fc *FuncContract) merge(o *FuncContract) {
 	fc.Uses = append(fc.Uses, o.Uses...)
 	fc.PostUses = append(fc.PostUses, o.PostUses...)
 	fc.CallSites = append(fc.CallSites, o.CallSites...)
+	fc.EntrySets = append(fc.EntrySets, o.EntrySets...)
 	fc.Raw = append(fc.Raw, o.Raw...)
 }
 
@@ -542,6 +544,33 @@ type CallSiteSpec struct {
 	Callee  string
 	Ordinal int
 	Clause  *Clause
+	Target  string // "set" clauses: the scalar ghost that is assigned
+}
+
+// setGhosts names the ghosts this contract assigns with "set" clauses.
+func (fc *FuncContract) setGhosts() []string {
+	var out []string
+	seen := map[string]bool{}
+	for _, l := range [][]*CallSiteSpec{fc.EntrySets, fc.CallSites} {
+		for _, cs := range l {
+			if cs.Target != "" && !seen[cs.Target] {
+				seen[cs.Target] = true
+				out = append(out, cs.Target)
+			}
+		}
+	}
+	return out
+}
+
+// parseSet splits "g = E" of a set clause.
+func parseSet(src string) (string, Expr, error) {
+	k := strings.Index(src, "=")
+	if k <= 0 || (k+1 < len(src) && src[k+1] == '=') {
+		return "", nil, fmt.Errorf("set clause needs the form \"ghost = expr\": %q", src)
+	}
+	name := strings.TrimSpace(src[:k])
+	e, err := parseExpr(strings.TrimSpace(src[k+1:]))
+	return name, e, err
 }
 
 type Macro struct {
@@ -796,6 +825,16 @@ func parseContractLines(pkg string, lines []string) (*PkgContracts, error) {
 				return nil, fmt.Errorf("%s: at outside func", pkg)
 			}
 			f := strings.Fields(rest)
+			if len(f) >= 4 && f[0] == "entry" && f[1] == "set" {
+				// at entry set g = E
+				src := strings.TrimSpace(rest[strings.Index(rest, "set")+3:])
+				name, e, err := parseSet(src)
+				if err != nil {
+					return nil, fmt.Errorf("%s: %s: %v", pkg, s, err)
+				}
+				cur.EntrySets = append(cur.EntrySets, &CallSiteSpec{Target: name, Clause: &Clause{Kind: "entryset", Src: src, E: e}})
+				continue
+			}
 			if len(f) < 4 || f[0] != "call" {
 				return nil, fmt.Errorf("%s: bad at clause %q", pkg, s)
 			}
@@ -807,6 +846,15 @@ func parseContractLines(pkg string, lines []string) (*PkgContracts, error) {
 			}
 			after := strings.TrimSpace(rest[strings.Index(rest, f[1])+len(f[1]):])
 			kw2, rest2 := splitKeyword(after)
+			if kw2 == "set" {
+				// at call NAME#K set g = E (ghost assignment after the call)
+				name, e, err := parseSet(rest2)
+				if err != nil {
+					return nil, fmt.Errorf("%s: %s: %v", pkg, s, err)
+				}
+				cur.CallSites = append(cur.CallSites, &CallSiteSpec{Callee: callee, Ordinal: ord, Target: name, Clause: &Clause{Kind: "callset", Src: rest2, E: e}})
+				continue
+			}
 			if kw2 != "assert" && kw2 != "assume" {
 				return nil, fmt.Errorf("%s: bad at clause %q", pkg, s)
 			}
